@@ -3,7 +3,8 @@
    against the actions of FileModel.  One ndjson line per public call with its arguments and results; byte strings
    are run-length coded (<<b1,n1,b2,n2,...>>) so that contents around the 65536-byte copy block and lines of
    thousands of characters stay small in the log; TLC expands them and computes every expected result (content,
-   firstBytes, read, size, Lines, TextOf) itself.  "disk" events carry what plain POSIX read() found in the file.
+   firstBytes, read, size, Lines, TextOf) itself - also for the "hq" events, queries made through the long-lived object
+   between its own writes, closes and reopens.  "disk" events carry what plain POSIX read() found in the file.
    The trace is accepted iff every line is the corresponding FileModel step with exactly the logged results.      *)
 EXTENDS FileModel, IOUtils
 
@@ -23,6 +24,7 @@ TStep ==
      \/ /\ e.op = "reset"
         /\ fs' = [x \in Paths |-> NoFile]
         /\ hmode' = "closed" /\ hpos' = 0 /\ heof' = FALSE /\ dirty' = FALSE
+        /\ hknown' = -1 /\ hlast' = -1
         /\ hist' = <<>> /\ hz' = {}
      \/ /\ e.op = "put"    /\ e.x \in {"p", "q"} /\ Put(e.x, Unrle(e.d), e.api)
      \/ /\ e.op = "append" /\ e.x \in {"p", "q"} /\ AppendTo(e.x, Unrle(e.d))
@@ -35,6 +37,11 @@ TStep ==
      \/ /\ e.op = "hput"   /\ HPutClosed(Unrle(e.d), e.api)
      \/ /\ e.op = "flush"  /\ HFlush
      \/ /\ e.op = "close"  /\ HClose
+     \/ /\ e.op = "close"  /\ HCloseClosed
+     \* queries through the long-lived object itself (size / exists / isFile / content / firstBytes / text / lines / readLine loop)
+     \/ /\ e.op = "hq" /\ e.k \in {"size", "exists", "isfile"} /\ HQuery(e.k, 0) /\ LastRec.r = <<e.r>>
+     \/ /\ e.op = "hq" /\ e.k \in {"content", "first", "text"} /\ HQuery(e.k, e.n) /\ LastRec.r = Unrle(e.r)
+     \/ /\ e.op = "hq" /\ e.k \in {"lines", "loop"} /\ HQuery(e.k, 0) /\ LastRec.ls = UnrleAll(e.r)
      \/ /\ e.op = "hread"  /\ HRead(e.n) /\ LastRec.r = Unrle(e.r)
      \/ /\ e.op = "hlines" /\ HReadLines(e.api) /\ LastRec.r = UnrleAll(e.r)
      \/ /\ e.op \in {"content", "first", "text"} /\ e.x \in Paths /\ Observe(e.x, e.op, e.n) /\ LastRec.r = Unrle(e.r)
